@@ -23,6 +23,7 @@ type Case struct {
 	//               reconnect: configured | running | mid-transition
 	Drops int // reconnect: how many times the stream is dropped (1-3)
 	Envs  int // number of environments alive (1-2)
+	Bare  bool // reconnect: reconciliation answers as the master generates them (no executor id, labels, uuid)
 }
 
 var hostNames = []string{"hosta", "hostb", "hostc"}
@@ -35,6 +36,7 @@ func run(c Case) (res vh.Result) {
 		return
 	}
 	defer w.Close()
+	w.Master.ReconcileBare = c.Bare
 	steps := []string{}
 	defer func() { res.History = map[string]interface{}{"steps": steps, "world_log_tail": w.LogLines(140)} }()
 	fail := func(sig, f string, a ...interface{}) vh.Result {
@@ -43,7 +45,7 @@ func run(c Case) (res vh.Result) {
 		return res
 	}
 	res.NonTrivial = true
-	res.Classes = []string{"action:" + c.Action, "point:" + c.Point}
+	res.Classes = []string{"action:" + c.Action, "point:" + c.Point, fmt.Sprintf("bare-answers:%v", c.Bare)}
 
 	mkwf := func(k int) string {
 		wf := fmt.Sprintf("wfr%d", k)
@@ -337,12 +339,44 @@ func run(c Case) (res vh.Result) {
 			return fail("tasks-changed-after-reconnect", "environment %s had %d tasks, has %d after the reconnection", id, c.NTasks, len(ge.GetEnvironment().Tasks))
 		}
 	}
+	// the tasks are still owned: locked in the task list, and the clean-up of unowned tasks (run before every environment
+	// creation and by the CleanupTasks request) does not touch them
+	if ts, err := w.TasksAPI(); err == nil {
+		for _, t := range ts {
+			if env, ok := owned[t.TaskId]; ok && !t.Locked {
+				return fail("owned-task-unlocked-after-reconnect", "after the reconnection task %s of live environment %s is reported unlocked (unowned)", t.TaskId, env)
+			}
+		}
+	}
+	mark := len(w.Master.Calls())
+	ctx, cancel := simworld.Ctx(60 * time.Second)
+	_, cerr := w.Cli.CleanupTasks(ctx, &pb.CleanupTasksRequest{})
+	cancel()
+	steps = append(steps, fmt.Sprintf("CleanupTasks after the reconnection: err=%v", cerr))
+	time.Sleep(300 * time.Millisecond)
+	for _, cl := range w.Master.Calls()[mark:] {
+		if cl.Type == "KILL" {
+			if env, ok := owned[cl.TaskID]; ok {
+				return fail("owned-task-killed-by-cleanup-after-reconnect", "after the reconnection a clean-up of unowned tasks sent KILL to task %s, which is owned by live environment %s", cl.TaskID, env)
+			}
+		}
+	}
+	for _, id := range envIds {
+		ge, err := w.GetEnv(id, false)
+		if err != nil {
+			return fail("env-vanished", "environment %s vanished after the clean-up that followed a reconnection: %v", id, err)
+		}
+		if len(ge.GetEnvironment().Tasks) != c.NTasks {
+			return fail("tasks-changed-after-reconnect", "environment %s had %d tasks, has %d after the clean-up that followed the reconnection", id, c.NTasks, len(ge.GetEnvironment().Tasks))
+		}
+	}
 	return
 }
 
 func gen(t *rapid.T) Case {
 	c := Case{NTasks: rapid.IntRange(1, 3).Draw(t, "ntasks"), Envs: rapid.IntRange(1, 2).Draw(t, "envs")}
 	c.Action = rapid.SampledFrom([]string{"restart", "reconnect"}).Draw(t, "action")
+	c.Bare = rapid.Bool().Draw(t, "bareReconciliationAnswers")
 	if c.Action == "restart" {
 		c.Point = rapid.SampledFrom([]string{"launching", "deployed", "mid-transition", "running", "teardown"}).Draw(t, "point")
 	} else {
@@ -365,6 +399,8 @@ func TestFixed(t *testing.T) {
 		for _, p := range []string{"configured", "running", "mid-transition"} {
 			vh.Fixed(t, prop, "reconnect-"+p, Case{NTasks: 2, Envs: 2, Action: "reconnect", Point: p, Drops: 2}, vh.Confirmed(run))
 		}
+		vh.Fixed(t, prop, "reconnect-bare-answers", Case{NTasks: 2, Envs: 2, Action: "reconnect", Point: "configured", Drops: 1, Bare: true}, vh.Confirmed(run))
+		vh.Fixed(t, prop, "restart-bare-answers", Case{NTasks: 2, Envs: 1, Action: "restart", Point: "running", Bare: true}, vh.Confirmed(run))
 	}
 }
 
